@@ -3,6 +3,7 @@ import re
 from engine.rules import Inconclusive
 from engine import panics
 from rules.C10 import decide_sites
+from engine import census
 
 EXPLANATION = (
     'The acceptance envelope of the epoch-difficulty checks is arithmetic and is NOT decided. Decided: the closed set of functions '
@@ -54,3 +55,7 @@ def run(ctx):
     # callers: verify_tau / verify_total_difficulty are only used by the last-state-proof process, whose use is guard-checked in C01.r2
     ctx.only_callers('C14.abort', 'verify_tau', {'SendLastStateProofProcess::execute'}, 1)
     ctx.only_callers('C14.abort', 'verify_total_difficulty', {'SendLastStateProofProcess::execute'}, 1)
+
+    # reviewed reference of the envelope arithmetic (decision structure + value expressions, helpers inlined)
+    for r in ROOTS:
+        census.check(ctx, 'C14.ref', r)
